@@ -284,6 +284,10 @@ def run(ctx):
         {"what": "missing type inside an or rule-set", "schema": '1 // {or: [{type: "@ZZ"}, {type: "integer"}]}', "types": [], "check": "E1302", "used": ["@ZZ"]},
         {"what": "types inside an or rule-set", "schema": '1 // {or: [{type: "@A"}, "@B", {type: "@C", nullable: true}, {type: "object", additionalProperties: "@D"}]}',
          "types": [["@A", "1"], ["@B", "2"], ["@C", "3"], ["@D", "4"]], "check": "ok", "used": ["@A", "@B", "@C", "@D"]},
+        {"what": "required or list all of whose members loop, written as rule-sets with flags that say nothing", "schema": "@A",
+         "types": [["@A", '{\n  "a": {} // {or: [{type: "@A", nullable: false}, {type: "@A", const: false}]}\n}']], "check": "err", "used": ["@A"]},
+        {"what": "or list of rule-sets with a terminating member", "schema": "@A",
+         "types": [["@A", '{\n  "a": 1 // {or: [{type: "@A", nullable: false}, {type: "integer"}]}\n}']], "check": "ok", "used": ["@A"]},
         {"what": "allOf cycle through an array", "schema": "@node", "types": [["@node", '{\n  "children": [\n    {} // {allOf: "@node"}\n  ]\n}']], "check": "ok", "used": ["@node"], "cls": "allof_cycle"},
         {"what": "allOf cycle through an optional property", "schema": "@node", "types": [["@node", '{\n  "next": {} // {allOf: "@node", optional: true}\n}']], "check": "ok", "used": ["@node"], "cls": "allof_cycle"},
         {"what": "allOf cycle through an array, two types", "schema": "@a", "types": [["@a", '{\n  "bs": [\n    @b\n  ]\n}'], ["@b", '{ // {allOf: "@a"}\n  "x": 1\n}']], "check": "ok", "used": ["@a"], "cls": "allof_cycle"},
